@@ -57,6 +57,13 @@ func models(c *vf.Ctx) []*chain.Model {
 				ms = append(ms, m)
 			}
 		}
+		// block combinatorics: one setup block, then every ordered tuple of <= 3 actions in one block
+		mc := &chain.Model{Name: "combo", Spec: sp, Opt: opt, Menu: chain.ComboMenu, H: 6, D: 2, K: 3, R: 0, StopWhenSpent: true}
+		if sp.Name == "mixed" {
+			mc.SkipStart = 3
+			mc.H += 3
+		}
+		ms = append(ms, mc)
 	}
 	return ms
 }
